@@ -1,5 +1,5 @@
 """C08 - backpressure: the per-step comparison and the goroutine identity of every callback (DESIGN 6/C08): Ops.tla is the definition; TLC enumerates, the real code is replayed."""
-import vlib, parts_subject, parts_multi, parts_pipeline as pp, parts_detach, common
+import vlib, parts_subject, parts_multilin, parts_multi, parts_pipeline as pp, parts_detach, common
 
 PID = 'C08'
 
@@ -15,6 +15,9 @@ def main(argv):
     # the unicast subject (groups of GroupBy, windows of WindowWhen) is the other place where values wait: a value published while a subscriber
     # is being served its backlog is delivered, in order, by the time its Next returns (linearizability, SubjectLin.tla, park mode)
     parts_subject.lin_part(rep, PID, 40 if rep.tier == 'thorough' else 12, [rep.seed * 100 + 60], park=True, kind='unicast')
+    # under CONTENTION too the operators deliver on the caller's goroutine: two producers, one parked at every lock boundary in turn; when a call returns, the
+    # outputs its arrival gave rise to (in the arrival order TLC found) have reached the observer (MultiLin.tla, SyncRet clause)
+    parts_multilin.sync_part(rep, PID, 60 if rep.tier == 'thorough' else 15, [rep.seed * 100 + 70 + i for i in range(3 if rep.tier == 'thorough' else 1)])
     # hand-off operators: the only places where values wait in a queue
     parts_detach.model_part(rep)
     parts_detach.trace_part(rep, PID, 600 if rep.tier == 'thorough' else 300, [rep.seed * 100 + i for i in range(6 if rep.tier == 'thorough' else 1)])
@@ -27,6 +30,8 @@ def main(argv):
 
 def replay(path):
     vlib.build_harness()
+    if path.endswith('.ndjson') and 'multilin-sync' in path:
+        return parts_multilin.replay_sync(PID, path)
     if path.endswith('.ndjson') and 'subject-lin' in path:
         return parts_subject.replay_lin(PID, path)
     if path.endswith('.ndjson'):
